@@ -10,6 +10,10 @@ spec->code:
      of the original calls with the state TLC computed;
  (2) `tlc -simulate` behaviours (longer histories, 3 request points, the other function pair) are
      replayed the same way;
+ (2b) the Repreprocess action is replayed as problem.reset() + a new preprocess_functions(c) on the SAME
+     original function objects (second run on a problem); after every call the original function objects
+     (values, Jacobians, coefficients of the linear ones: dense, csr_array or csr_matrix depending on the
+     variant) are compared with the specification's F / DF (clause OriginalIntact);
  (3) TLC must refute the property when the two rules of the code that contradict it are put into the
      specification as coded (LinRule / GradRule = "asCoded"): the defects are found at specification level.
 The oracle is the TLA+ state; Python only builds the objects, divides/multiplies by the scale and compares.
